@@ -11,7 +11,7 @@ LEVEL = "exploration"
 MANIFEST = dict(
     engine="E6-fluentshadow", engine_path="vlib/checks/c15.py",
     kind="generated arrays (ndarray / DataArray / Dataset) through earthkit.workflows.backends.<op> against the NumPy oracle; exhaustive batch partitions",
-    technique="runtime differential monitor: every backend call on generated arrays is compared with np.<op> on the stacked data (array-API and xarray backends, and with each other); for every function carrying the batchable marker all partitions of 2..6 arguments into consecutive batches are enumerated and f(f(b1),..,f(bk)) compared with f(all)",
+    technique="runtime differential monitor: every backend call on generated arrays (axes counted from the front and, in a third of the cases, from the end) is compared with np.<op> on the stacked data (array-API and xarray backends, and with each other); for every function carrying the batchable marker all partitions of 2..6 arguments into consecutive batches are enumerated and f(f(b1),..,f(bk)) compared with f(all)",
     text="Held = every generated (op, arrays, axis/dim, indices) case agreed with NumPy on both backends and every marked function passed every partition tried; unmarked functions are probed for counter-examples only as evidence.",
     note="dtype identity, attrs and coordinate metadata are not compared; float tolerance rtol 1e-9 (float64) / 1e-4 (float32); a batch of one argument is passed through un-reduced, as fluent.reduce does.",
 )
@@ -347,6 +347,6 @@ def run_shard(spec, col: Collector):
 
 def plan(tier, seed, scale=1.0):
     q = tier == "quick"
-    n, copies = (700, 8) if q else (14000, 16)
+    n, copies = (700, 8) if q else (70000, 16)
     return [dict(shard=f"b{c}", n=int(n * scale), budget_s=50 if q else 800, timeout_s=150 if q else 1300,
                  hash_seed=(seed * 23 + c) % 4294967295) for c in range(copies)]
